@@ -210,18 +210,24 @@ STUBS = ("pooled connections are stubs reporting one of the predicate tuples rea
 
 
 def _sh(shapes: typing.Sequence[tuple[int, int]], deep: bool = False) -> list[dict]:
-    """Shards: shape x flavour x (new connection multiplexes?) x a slice of
-    the first connection's / request's flags."""
+    """Shards: shape x flavour x (new connection multiplexes?) x slices of the
+    first request's / connection's flags, so that no shard needs more than
+    about a minute of CPU."""
     out = []
     for (n, m) in shapes:
         for fl in ("async", "sync"):
             for na in (True, False):
-                if n * m >= 3 or deep:
+                if n * m >= 3:
                     for q in (True, False):
-                        if deep and n + m >= 5:
+                        if q and (n + m >= 4):
                             for a in (True, False):
-                                out.append({"n": n, "m": m, "flavour": fl,
-                                            "_pre": f"new_avail == {na} and q0 == {q} and c0 == {a}"})
+                                if deep and n + m >= 5:
+                                    for b in (True, False):
+                                        out.append({"n": n, "m": m, "flavour": fl,
+                                                    "_pre": f"new_avail == {na} and q0 == {q} and c0 == {a} and d0 == {b}"})
+                                else:
+                                    out.append({"n": n, "m": m, "flavour": fl,
+                                                "_pre": f"new_avail == {na} and q0 == {q} and c0 == {a}"})
                         else:
                             out.append({"n": n, "m": m, "flavour": fl, "_pre": f"new_avail == {na} and q0 == {q}"})
                 else:
@@ -229,18 +235,38 @@ def _sh(shapes: typing.Sequence[tuple[int, int]], deep: bool = False) -> list[di
     return out
 
 
+def _deep(shapes: typing.Sequence[tuple[int, int]]) -> list[dict]:
+    """Thorough shards for the larger shapes: one shard per valid predicate
+    tuple (kind) of the first two connections x flavour x multiplexing flag."""
+    kinds = ["a{i} == False and b{i} == False and c{i} == False and d{i} == False",
+             "a{i} == False and b{i} == False and c{i} == False and d{i} == True",
+             "a{i} == False and b{i} == False and c{i} == True",
+             "a{i} == False and b{i} == True",
+             "a{i} == True"]
+    out = []
+    for (n, m) in shapes:
+        for fl in ("async", "sync"):
+            for na in (True, False):
+                for k0 in kinds:
+                    for k1 in kinds:
+                        out.append({"n": n, "m": m, "flavour": fl, "_timeout": 900,
+                                    "_pre": f"new_avail == {na} and {k0.format(i=0)} and {k1.format(i=1)}"})
+    return out
+
+
 @harness(
     "C04", "poolstep",
-    quick=_sh(((2, 2), (3, 1), (1, 3))),
-    thorough=_sh(((2, 2), (3, 1), (1, 3), (3, 2), (2, 3)), deep=True),
+    quick=_sh(((2, 1), (1, 2), (2, 2), (1, 3))),
+    thorough=_sh(((2, 1), (1, 2), (2, 2), (1, 3))) + _deep(((3, 1),))
+    + [s for s in _deep(((3, 2),)) if s["flavour"] == "async" and "new_avail == False" in s["_pre"]],
     per_prop={
         "C01": {"quick": _sh(((2, 1), (1, 2)))},
         "C10": {"quick": _sh(((2, 1), (1, 2)))},
-        "C07": {"quick": _sh(((2, 2),))},
-        "C09": {"quick": _sh(((2, 2),))},
+        "C07": {"quick": _sh(((2, 1), (1, 2), (2, 2)))},
+        "C09": {"quick": _sh(((2, 1), (2, 2)))},
         # C08(c): atomic-step invariants of the step as the sync pool runs it (under its lock)
         "C08": {"quick": [s for s in _sh(((2, 2),)) if s["flavour"] == "sync"],
-                "thorough": [s for s in _sh(((2, 2), (3, 1), (1, 3), (3, 2)), deep=True) if s["flavour"] == "sync"]},
+                "thorough": [s for s in _sh(((2, 2), (1, 3))) + _deep(((3, 1),)) if s["flavour"] == "sync"]},
     },
     example=dict(N=2, K=1, new_avail=False,
                  a0=False, b0=False, c0=True, d0=True, a1=False, b1=False, c1=False, d1=False,
